@@ -496,6 +496,7 @@ fn query_name(w: &World, t: &QTarget) -> Dn {
             z.ns[*k as usize % z.ns.len()].host.clone()
         }
         QTarget::Nx { zone } => child("nx", &w.zones[pick(*zone)].name),
+        QTarget::Fan => w.fan_root.clone().unwrap_or_else(|| w.zones[pick(0)].name.clone()),
         QTarget::Chain { chain, offset } => {
             let chains: Vec<&Vec<Dn>> = w.chains.iter().filter(|c| !c.is_empty()).collect();
             if chains.is_empty() {
@@ -689,6 +690,37 @@ fn scenario(c: &NetCase, world: Rc<World>, rec: &mut Rec) -> CaseResult {
                 vfail!("harness-deadlock", "{}", ctx("simulation deadlocked (no timer, no runnable task)"));
             }
         };
+        // the alias tree: alias lookups are capped per client query (64 in this tree), each costing
+        // a final lookup and possibly a discovery step; the observed maximum on the unchanged tree
+        // is recorded in the evidence counter `max-datagrams-alias-tree`
+        let in_tree = w.fan_root.as_ref().is_some_and(|root| {
+            let l = qname.split('.').next().unwrap_or("");
+            l.starts_with('f') && l[1..].chars().all(|c| c.is_ascii_digit()) && sim_ref::parent_of(qname) == sim_ref::parent_of(root)
+        });
+        let qmax = if in_tree { qmax + 64 * 4 } else { qmax };
+        if in_tree {
+            // "Maximum number of cname records to look up in a CNAME chain, regardless of the
+            // recursion depth limit" (recursor/handle.rs, 64): per client query, not per path
+            let is_node = |n: &Dn| {
+                let l = n.split('.').next().unwrap_or("");
+                l.starts_with('f') && l[1..].chars().all(|c| c.is_ascii_digit())
+            };
+            let looked_up: BTreeSet<&Dn> = exch.iter().filter(|e| e.qt == qt_of(*qtype) && is_node(&e.qname)).map(|e| &e.qname).collect();
+            rec.count("alias-tree-names-looked-up(sum)", looked_up.len() as u64);
+            vensure!(
+                looked_up.len() <= 66,
+                "alias-lookups-exceed-the-per-query-cap",
+                "{}",
+                ctx(&format!("{} distinct names of the alias tree were looked up upstream for one client query; the recursor caps alias lookups at 64 per query", looked_up.len()))
+            );
+        }
+        if in_tree {
+            if std::env::var_os("C19_TRACE_FAN").is_some() {
+                eprintln!("FAN {qname} {qtype} limits r{}/ns{} fan {:?}: {dgrams} dgrams, result {:?}", cfg.recursion_limit, cfg.ns_recursion_limit, c.net.fan, res.as_ref().map(|m| (m.answers.len(), m.metadata.response_code)).map_err(|e| e.to_string().chars().take(80).collect::<String>()));
+            }
+            rec.class("query:alias-tree");
+            rec.count("max-datagrams-alias-tree(sum)", dgrams);
+        }
         vensure!(
             dgrams <= if twin { 2 * qmax } else { qmax },
             "upstream-queries-exceed-structural-bound",
@@ -1061,8 +1093,9 @@ pub fn check() -> Option<Check> {
     Some(Check {
         id: "C19",
         level: "exploration",
-        rule: "recursor: random simulated internets (root + <=3 zone levels, <=2 NS per zone, NS host names in the zone / its parent / any other zone, glue or not, lame / dead / refusing / SERVFAIL servers, CNAME chains of 1..20 names and loops, optional server-side CNAME chasing, reply latency 0/7/150 ms steps) served over UDP by a reference authoritative model (RFC 1034 4.3.2) to the real Recursor on a discrete-event runtime; hostile servers append marked records whose owners lie outside every zone delegated to them (A for a victim name, NS+glue for a victim zone or the root, NS pointing at an attacker host, CNAME at a victim name, address for a victim zone's NS host) to the answer / authority / additional section of all, referral, positive or negative responses; recursion_limit and ns_recursion_limit in {2..6, 12, 24}; optional deny/allow lists for servers and answers; 1-4 queries (A/AAAA/NS/CNAME/TXT; every third one asked twice at the same instant so that the second resolution joins the first one's in-flight requests, both results judged) then up to 8 follow-up queries for the victims on the same Recursor. Counted non-trivial when distinct and a poison record was actually delivered to the recursor, or the graph has a glueless / self-referential / cyclic delegation, a lame or dead server, or a CNAME loop. stub_alias: CachingClient over scripted CNAME/SRV alias graphs (chains 1..20, loops, 1..20 alias records per response); non-trivial = at least one alias hop.",
+        rule: "recursor: random simulated internets (root + <=3 zone levels, <=2 NS per zone, NS host names in the zone / its parent / any other zone, glue or not, lame / dead / refusing / SERVFAIL servers, CNAME chains of 1..20 names and loops, in 1 world of 13 an alias tree (2-3 CNAME records per owner, 3-5 levels, up to 364 names), optional server-side CNAME chasing, reply latency 0/7/150 ms steps) served over UDP by a reference authoritative model (RFC 1034 4.3.2) to the real Recursor on a discrete-event runtime; hostile servers append marked records whose owners lie outside every zone delegated to them (A for a victim name, NS+glue for a victim zone or the root, NS pointing at an attacker host, CNAME at a victim name, address for a victim zone's NS host) to the answer / authority / additional section of all, referral, positive or negative responses; recursion_limit and ns_recursion_limit in {2..6, 12, 24}; optional deny/allow lists for servers and answers; 1-4 queries (A/AAAA/NS/CNAME/TXT; every third one asked twice at the same instant so that the second resolution joins the first one's in-flight requests, both results judged) then up to 8 follow-up queries for the victims on the same Recursor. Counted non-trivial when distinct and a poison record was actually delivered to the recursor, or the graph has a glueless / self-referential / cyclic delegation, a lame or dead server, or a CNAME loop. stub_alias: CachingClient over scripted CNAME/SRV alias graphs (chains 1..20, loops, 1..20 alias records per response); non-trivial = at least one alias hop.",
         assumptions: vec![
+            "alias trees (several CNAME records per owner): the recursor's own cap of 64 alias lookups per client query (recursor/handle.rs: 'regardless of the recursion depth limit') is taken as the bound; a change of that constant upstream needs the number 64 in this check changed with it",
             "DNSSEC validation off (SecurityUnaware); UDP only (responses are small, no truncation, so TCP is never needed)",
             "root hints point at working servers that carry the root zone; root servers are exempt from deny_server (they are explicit configuration)",
             "a record counts as out-of-bailiwick poison only if its owner lies outside every zone delegated to the injecting server's address (a stricter per-exchange reading would call more records poison)",
